@@ -417,7 +417,14 @@ def run(rep, tier):
     for be in ("cpp", "js"):
         sp = [x for x in c15.special_items(profs[be]) if not c15.known_shape(be, x[3])]
         srng.shuffle(sp)
-        sp = sp[: (40 if tier == "quick" else 2000)]
+        # one shape of every (marker, kind of type) pair first -- some pairs have a single shape (a comparison on an enum) -- then the rest
+        firsts, seen_pairs = [], set()
+        for x in sp:
+            pair = " ".join(x[3].split()[:4])
+            if pair not in seen_pairs:
+                seen_pairs.add(pair)
+                firsts.append(x)
+        sp = (firsts + [x for x in sp if x not in firsts])[: (max(40, len(firsts)) if tier == "quick" else 2000)]
         by_type = {}
         for x in sp:
             for tn in re.findall(r'pub (?:struct|enum) (\w+)', x[1]):
